@@ -225,7 +225,29 @@ func (ex *Exec) abstractCall(key string, args []Value, sig *types.Signature) Val
 			items = append(items, ex.locOfPtr(p, ex.st)...)
 		}
 	}
-	ex.havocItems(items, ex.st.clone())
+	pre := ex.st.clone()
+	ex.havocItems(items, pre)
+	// `keeps`: object fields the abstracted calls are assumed not to write get their values back
+	if fc := ex.top.contract; fc != nil && len(fc.Keeps) > 0 {
+		saved := ex.fr
+		ex.fr = ex.top
+		env := ex.topEnv()
+		ex.fr = saved
+		for _, it := range ex.evalModifies(fc.Keeps, ex.entry, env) {
+			if it.level != 1 {
+				panic(unsupported("keeps: only fields of one object (x.f, *p)"))
+			}
+			for _, key := range sortedKeys(ex.st.heap) {
+				srt := ex.heapSort[key]
+				if srt == "" || !it.covers(key) || keyLevel(key, srt) != 1 {
+					continue
+				}
+				if old, ok := pre.heap[key]; ok {
+					ex.hStore1(key, srt, it.ref, Sel(old, it.ref))
+				}
+			}
+		}
+	}
 	na := ex.vc.Fresh("alloc", SInt)
 	ex.vc.Assume(ex.st.pc, Ge(na, ex.st.alloc), "")
 	ex.st.alloc = na
